@@ -85,6 +85,45 @@ func hiccupPlan(c Case, tokens int) (us []int, slowest time.Duration) {
 	return us, slowest
 }
 
+// starveProbe measures how busy the machine is while a dense case runs: a goroutine of this process sleeps 2 ms over
+// and over; the share of those sleeps that were woken more than 5 ms late. (vf.LoadProbe keeps the single worst
+// wake-up, which is > 5 ms in most runs of 10 s next to busy instances; a starved process is late all the time.)
+type starveProbe struct {
+	stop, done chan struct{}
+	n, late    int
+}
+
+func startStarveProbe() *starveProbe {
+	p := &starveProbe{stop: make(chan struct{}), done: make(chan struct{})}
+	go func() {
+		defer close(p.done)
+		for {
+			select {
+			case <-p.stop:
+				return
+			default:
+			}
+			t0 := time.Now()
+			time.Sleep(2 * time.Millisecond)
+			p.n++
+			if time.Since(t0) > 7*time.Millisecond {
+				p.late++
+			}
+		}
+	}()
+	return p
+}
+
+// Stop ends the probe and returns the share of late wake-ups.
+func (p *starveProbe) Stop() float64 {
+	close(p.stop)
+	<-p.done
+	if p.n == 0 {
+		return 1
+	}
+	return float64(p.late) / float64(p.n)
+}
+
 // TestDenseHiccup: the run-length clause where it is hardest to keep: thousands of tokens per second per instance and
 // a target that stops answering for 2.1-2.8 s once or twice. Cases last 4-7 s; only three of them run concurrently in
 // a process (the recording doubles identify the instance by runtime.Stack, which serialises the goroutines of a
